@@ -203,7 +203,7 @@ package redisemu
 //@ requires free table: ds.waitingClients.table != nil
 //@ modifies signalListTuple objectWaitList.queueHead objectWaitList.queueTail wakeSignal.objectsHead wakeSignal.objectsTail wakeSignal.raisedBy map ghost.gWakes ghost.gTableUnblocks ghost.gTableUnblockKey ghost.gTableUnblockN ghost.held
 //@ ensures [C11] handed.on: gTableUnblocks == old(gTableUnblocks) + 1 && gTableUnblockKey == old(ws.raisedBy) && gTableUnblockN == 1
-//@ ensures [C08,C16] released: !held
+//@ ensures [C08,C16,C13] released: !held
 
 //@ func RedisClient.IsCloseRequested
 //@ trusted reads the connection's closing flag under its mutex
